@@ -13,12 +13,16 @@ mod c04;
 mod c05;
 mod scenes;
 mod c06;
+mod c07;
+mod rops;
 mod c10;
 mod c11;
 mod bfs;
 mod c12;
 mod c13;
 mod c14;
+mod c15;
+mod c16;
 mod cat;
 mod conv;
 mod dev;
@@ -126,6 +130,7 @@ fn stage_cfg(st: &Stage, thorough: bool, deadline: Instant, exe: &str) -> Explor
         thorough,
         seed: seed(),
         recheck_every: 1000,
+        record_obs: st.hw_compare,
     }
 }
 
@@ -160,6 +165,45 @@ fn run_check(id: &str, tier: &str) -> i32 {
             "[{}] stage {:20} bound={} exec={} evals={} outcomes={} viol={} completed_bound={} capped={} wall={:.1}s",
             id, st.space, cfg.bound, r.executions, r.evals, r.distinct_obs, r.violations_total, r.completed_bound, r.capped, r.wall_s
         );
+        let mut r = r;
+        if st.hw_compare {
+            // second run with the workers of the crc32c-feature build
+            match std::env::var("MC_HW_EXE") {
+                Ok(hw) if std::path::Path::new(&hw).exists() => {
+                    let cfg2 = stage_cfg(st, thorough, Instant::now() + share, &hw);
+                    let r2 = explore(&cfg2);
+                    eprintln!("[{}] stage {:20} (crc32c feature build) exec={} outcomes={}", id, st.space, r2.executions, r2.distinct_obs);
+                    r.machinery_errors.extend(r2.machinery_errors.iter().cloned());
+                    if r2.capped || r.capped {
+                        r.capped = true;
+                    } else if r.obs_by_case.len() != r2.obs_by_case.len() {
+                        r.machinery_errors.push(format!("backend comparison: {} cases in the default build, {} in the crc32c build", r.obs_by_case.len(), r2.obs_by_case.len()));
+                    } else {
+                        for ((c1, o1), (c2, o2)) in r.obs_by_case.iter().zip(r2.obs_by_case.iter()) {
+                            if c1 != c2 {
+                                r.machinery_errors.push(format!("backend comparison: case lists differ ({c1} vs {c2})"));
+                                break;
+                            }
+                            if o1 != o2 {
+                                r.violations_total += 1;
+                                r.violations.push(explore::ViolationRec {
+                                    choices: explore::parse_choices(c1),
+                                    sig: format!("{}/backends-differ", check.id),
+                                    detail: format!("case [{c1}] of space {} yields observation {o1:016x} with the built-in CRC and {o2:016x} with the crc32c feature (file bytes / verdicts differ)", st.space),
+                                    desc: String::new(),
+                                    kind: "oracle",
+                                });
+                                break;
+                            }
+                        }
+                    }
+                    r.counters.insert("backend-compare:cases-compared".into(), r.obs_by_case.len() as u64);
+                    r.violations.extend(r2.violations.iter().cloned());
+                    r.violations_total += r2.violations_total;
+                }
+                _ => r.machinery_errors.push("MC_HW_EXE is not set or missing: cannot compare CRC backends".into()),
+            }
+        }
         results.push(r);
     }
     // extra in-process stage (E2 / E4 engines) if the check defines one
